@@ -373,9 +373,9 @@ def run(chk):
     folds = {}
     for g, gs in sorted(groups.items()):
         cfg = "1" if g == "cr" else g       # the close-race probe is folded on its own (three lines)
-        chunks = 1 if (quick or len(gs) < 200) else 4
-        folds[g] = (gs, pool.submit(V.fold_traces, work, "FDObs", "FDObs_%s.cfg" % cfg, gs, timeout=1500, chunks=chunks, max_rounds=8),
-                    pool.submit(V.fold_traces, work, "FDTrace", "FDTrace_%s.cfg" % cfg, gs, timeout=1500, chunks=chunks, max_rounds=8)
+        chunks = 1 if (quick or len(gs) < 200) else 6
+        folds[g] = (gs, pool.submit(V.fold_traces, work, "FDObs", "FDObs_%s.cfg" % cfg, gs, timeout=2400, chunks=chunks, max_rounds=8),
+                    pool.submit(V.fold_traces, work, "FDTrace", "FDTrace_%s.cfg" % cfg, gs, timeout=2400, chunks=chunks, max_rounds=8)
                     if g != "cr" else None)
     for g, (gs, fobs, fmt) in folds.items():
         obs = fobs.result()
